@@ -173,6 +173,7 @@ def run(res):
     res.obligations += ths
     res.discharged += ths
     res.coverage["print_assumptions"] = rep
+    facts_err = vlib.check_fact_props(res, "C18f", "what the run-time crate consults of its process: environment, current directory")
     vlib.build_model_runner()
     ok, out = vlib.build_harness("rt")
     if not ok:
@@ -207,6 +208,7 @@ def run(res):
     st = vlib.correspond(res, "abspath", cases, ia, ib, describe, nontrivial, oracle_for(bypos))
     if st["disagreements"] == 0 and st["oracle_failures"] == 0:
         res.discharged.append(name)
+    vlib.report_fact_failure(res, "C18f", facts_err, "what the run-time crate consults of its process: environment, current directory")
     kinds = {}
     for c in cases:
         k = bypos[c]["kind"]
